@@ -520,3 +520,75 @@ theorem sectionsHaveRows_sound (rows : List IsoRow) (secs : List (Nat × List (N
   exact List.mem_map.mpr ⟨r, h1, by simp [isoKey, h2, h3]⟩
 
 end PtLoad
+
+/-! ## density.init -/
+namespace PtLoad
+
+section density
+variable {α : Type} [Div α] [NatCast α] [IntCast α]
+
+def densStep (zOf : Nat → Option Nat) (l : List (Nat × Option α)) (r : DensityRow) : List (Nat × Option α) :=
+  match zOf r.sym with
+  | some z => (z, r.value.map Dec.toNum) :: l
+  | none => l
+
+def densKV (zOf : Nat → Option Nat) (r : DensityRow) : Option (Nat × Option α) :=
+  (zOf r.sym).map fun z => (z, r.value.map Dec.toNum)
+
+theorem Density.loadRows_eq (zOf : Nat → Option Nat) (rows : List DensityRow) :
+    Density.loadRows (α := α) zOf rows = rows.foldl (densStep zOf) [] := rfl
+
+theorem density_fold (zOf : Nat → Option Nat) (rows : List DensityRow) (init : List (Nat × Option α)) :
+    rows.foldl (densStep zOf) init = (rows.filterMap (densKV (α := α) zOf)).reverse ++ init := by
+  induction rows generalizing init with
+  | nil => rfl
+  | cons r rows ih =>
+    rw [List.foldl_cons, ih]
+    unfold densKV densStep
+    cases h : zOf r.sym <;> simp [h, List.filterMap_cons]
+
+/-- an element is served the entry of `element_densities` under its symbol (`None` stays `None`) -/
+theorem density_is_entry (zOf : Nat → Option Nat) (pre post : List DensityRow) (r : DensityRow) (z : Nat)
+    (hz : zOf r.sym = some z) (hlast : ∀ x ∈ post, zOf x.sym ≠ some z) :
+    elDensity (Density.loadRows (α := α) zOf (pre ++ r :: post)) z = some (r.value.map Dec.toNum) := by
+  unfold elDensity
+  rw [Density.loadRows_eq, density_fold, List.filterMap_append, List.filterMap_cons]
+  simp only [densKV, hz, Option.map_some, List.reverse_append, List.reverse_cons, List.append_assoc,
+    List.singleton_append, List.append_nil]
+  rw [aget_append_of_forall_ne]
+  · simp
+  · intro p hp
+    simp only [List.mem_reverse, List.mem_filterMap] at hp
+    obtain ⟨x, hx, hkv⟩ := hp
+    unfold densKV at hkv
+    cases hzx : zOf x.sym with
+    | none => rw [hzx] at hkv; simp at hkv
+    | some z' =>
+      rw [hzx] at hkv
+      simp only [Option.map_some, Option.some.injEq] at hkv
+      subst hkv
+      intro e
+      exact hlast x hx (by rw [hzx]; exact congrArg some e)
+
+/-- an element without an entry has no `_density` attribute -/
+theorem density_absent (zOf : Nat → Option Nat) (rows : List DensityRow) (z : Nat)
+    (h : ∀ x ∈ rows, zOf x.sym ≠ some z) : elDensity (Density.loadRows (α := α) zOf rows) z = none := by
+  unfold elDensity
+  rw [Density.loadRows_eq, density_fold, aget_append_of_forall_ne]
+  · rfl
+  · intro p hp
+    simp only [List.mem_reverse, List.mem_filterMap] at hp
+    obtain ⟨x, hx, hkv⟩ := hp
+    unfold densKV at hkv
+    cases hzx : zOf x.sym with
+    | none => rw [hzx] at hkv; simp at hkv
+    | some z' =>
+      rw [hzx] at hkv
+      simp only [Option.map_some, Option.some.injEq] at hkv
+      subst hkv
+      intro e
+      exact h x hx (by rw [hzx]; exact congrArg some e)
+
+end density
+
+end PtLoad
